@@ -346,8 +346,8 @@ package http2
 //@   ensures old(len(sc.streams)) == 0 ==> owedByBodies == old(owedByBodies)
 //@ func (*serverConn).processGoAway :: sc, f -> err
 //@   props C13,C10
-//@   requires sc != nil && f != nil
-//@   assigns unrestricted, procLog
+//@   requires sc != nil && f != nil && inflowOK(sc.inflow)
+//@   assigns unrestricted, procLog, owedByBodies
 //@   ghostset procLog = procLog ++ seq[int]{7}
 //@   ensures procLog == old(procLog) ++ seq[int]{7}
 //@   ensures [C13:goaway-from-client-never-an-error-and-disables-push] err == nil && !sc.pushEnabled
